@@ -76,13 +76,17 @@ def run(ctx):
     nvh = tp.check_valid_height(ctx, vh_cases, vh_maxblocks) if vh_cases else 0
     ctx.log("vbft Server.validHeight agrees with the model on %d (window, height) cases" % nvh)
     if ctx.thorough:
-        # pure model checking of a larger universe (no export), all workers; nops is part of the view so that the
-        # depth bound is exact with several workers
+        # pure model checking (no export, all workers) of the COMPLETE reachable graph of the deep universe with one more
+        # ledger height; no depth bound is active (MaxOps is larger than the depth of the graph), so the run is exact
         cfg = "TxPool_gen_mc.cfg"
-        r = ctx.tlc("TxPool_MC", cfg=cfg, files={cfg: tp.cfg_text(evm="EvmQ", ont="OntQ", max_ops=5, export=False, view="viewn")}, timeout=2400)
-        ctx.log("TLC mc EvmQ depth 5: %s, %d generated, %d distinct, %.1fs" % (r.status, r.generated, r.distinct, r.wall))
+        r = ctx.tlc("TxPool_MC", cfg=cfg, files={cfg: tp.cfg_text(evm="EvmD", ont="OntQ", max_ops=40, export=False,
+                                                                 max_height=4, max_block_txs=1)}, timeout=1500)
+        ctx.log("TLC mc EvmD height 4 (complete graph): %s, %d generated, %d distinct, depth %d, %.1fs" % (
+            r.status, r.generated, r.distinct, r.depth, r.wall))
         if r.status != "ok":
-            ctx.infra("TLC did not verify the larger universe: %s %s %s" % (r.status, r.violated, r.errors[:2]))
+            ctx.infra("TLC did not verify the MaxHeight=4 universe: %s %s %s" % (r.status, r.violated, r.errors[:2]))
+        elif r.depth >= 40:
+            ctx.infra("MaxHeight=4 run hit the MaxOps bound (depth %d): not the complete graph" % r.depth)
     missing = [a for a in ACTIONS if a not in names] + [x for x in ("added", "replaced", "same-nonce", "duplicate") if x not in results]
     if missing:
         ctx.infra("vacuous model runs: never taken: %s" % missing)
